@@ -144,7 +144,7 @@ func init() {
 	register("c02", func(args []string) int {
 		f := parseFlags("c02", args)
 		rep := newReport("C02", f)
-		rep.Rule = "random writer histories with read transactions begun at API boundaries and held open across later writer steps; every open reader re-reads its complete view (root + every page of the state committed at its Begin) at EVERY disk operation (page writes, syncs, header write, truncate, remap) and after every API call; commits reached with readers open block, a second goroutine verifies the readers while the commit waits, checks that no reader is admitted under Pending, then closes them; files include unbounded ones growing past the mapped size; directed: append-only / SetRoot-only / alloc+free commits with open readers that grow the file past its mapping (remap), readers keep the byte slices obtained before. Non-trivial: history with >= 1 reader verification at a disk op; distinct by op statistics."
+		rep.Rule = "random writer histories with read transactions begun at API boundaries and held open across later writer steps; every open reader re-reads its complete view (root + every page of the state committed at its Begin) at EVERY disk operation (page writes, syncs, header write, truncate, remap) and after every API call; commits reached with readers open block, a second goroutine verifies the readers while the commit waits, checks that no reader is admitted under Pending, then closes them; files include unbounded ones growing past the mapped size; directed: append-only / SetRoot-only / alloc+free commits with open readers that grow the file past its mapping (remap), readers keep the byte slices obtained before; a write transaction that ends without commit on a full bounded file whose committed state lives partly in an overflow area, with readers open. Non-trivial: history with >= 1 reader verification at a disk op; distinct by op statistics."
 		if f.replay != "" {
 			rp, err := loadHistReplay(f.replay)
 			if err != nil {
@@ -186,6 +186,33 @@ func init() {
 			cfg := engine.Config{PageSize: 1024, MaxSize: []uint64{0, 0, 1 << 20}[i%3], InitMetaArea: uint32(4 * (i % 2))}
 			c02History(rep, cfg, ops, int64(500+i), false)
 			rep.count("scenario:append-only-commit-with-open-readers", 1)
+		}
+		// directed: a full bounded file whose last commit put its overwrite / mapping / free-list pages into an overflow
+		// area behind the size limit; readers are open; a write transaction that ends without a commit (Rollback, Close,
+		// failed allocation first, with or without overflow area of its own) truncates the file to the committed end -
+		// the readers' pages in the overflow area must stay
+		for i := 0; i < 16; i++ {
+			hr := rand.New(rand.NewSource(int64(700 + i)))
+			cfg := engine.Config{PageSize: 1024, MaxSize: uint64(64+8*(i%3)) * 1024, InitMetaArea: uint32((i % 2) * 2)}
+			ops := fillAllOps(hr)
+			ops = append(ops, engine.Op{Kind: "begin", Overflow: true, WALLimit: 1000})
+			for k := 2 + i%5; k > 0; k-- {
+				ops = append(ops, engine.Op{Kind: "setfull", P: hr.Intn(1 << 16), Seed: 1 + hr.Intn(1000)})
+			}
+			ops = append(ops, engine.Op{Kind: "commit"}, engine.Op{Kind: "rbegin"}, engine.Op{Kind: "rbegin"}, engine.Op{Kind: "rread", R: 0},
+				engine.Op{Kind: "begin", Overflow: i%4 == 3})
+			switch i % 4 {
+			case 1:
+				ops = append(ops, engine.Op{Kind: "alloc", N: 3}) // fails: the file is full
+			case 2:
+				ops = append(ops, engine.Op{Kind: "setfull", P: hr.Intn(1 << 16), Seed: 5}, engine.Op{Kind: "flush"})
+			case 3:
+				ops = append(ops, engine.Op{Kind: "alloc", N: 2}, engine.Op{Kind: "setfull", P: hr.Intn(1 << 16), Seed: 6}, engine.Op{Kind: "flush"})
+			}
+			ops = append(ops, engine.Op{Kind: []string{"rollback", "close"}[(i/4)%2]}, engine.Op{Kind: "verify"}, engine.Op{Kind: "rread", R: 1},
+				engine.Op{Kind: "rbegin"}, engine.Op{Kind: "rread", R: 2}, engine.Op{Kind: "rcloseall"}, engine.Op{Kind: "verify"})
+			c02History(rep, cfg, ops, int64(700+i), false)
+			rep.count("scenario:aborted-writer-on-a-full-file-with-an-overflow-area-under-readers", 1)
 		}
 		for i := 0; i < n; i++ {
 			if rep.outOfTime() {
